@@ -16,6 +16,10 @@ package usage
 //@ func (*usage.Reconciler).Reconcile
 //@ props C08 C19
 //@ ghost usingGone bool = false
+//@ ghost labelPersisted bool = false
+//@ site (client.Reader).Get(_, _, _, $obj) as Get-used
+//@   where $obj == used
+//@   update labelPersisted = err == nil && used.GetLabels()[inUseLabelKey] == "true"
 //@ site (client.Reader).Get(_, _, _, $obj) as Get-using
 //@   where $obj == using
 //@   update usingGone = call("k8s.io/apimachinery/pkg/api/errors.IsNotFound", err)
@@ -27,9 +31,10 @@ package usage
 //@   where $o == used
 //@   assert [C19:label-removed-only-for-last-usage] meta.WasDeleted(u) ==> len(usageList.Items) < 2
 //@   assert [C19:label-added-when-live] !meta.WasDeleted(u) ==> used.GetLabels()[inUseLabelKey] == "true"
+//@   update labelPersisted = err == nil && used.GetLabels()[inUseLabelKey] == "true"
 //@ site (*v1.ConditionedStatus).SetConditions(_, $cs...)
 //@   assert [C19:available-only-when-live] (len($cs) == 1 && $cs[0].Type == "Ready" && $cs[0].Status == "True") ==> !meta.WasDeleted(u)
 //@   assert [C19:available-only-when-protected] (len($cs) == 1 && $cs[0].Type == "Ready" && $cs[0].Status == "True") ==>
-//@        used.GetLabels()[inUseLabelKey] == "true"
+//@        (labelPersisted && used.GetLabels()[inUseLabelKey] == "true")
 //@   assert [C19:available-only-when-owned] (len($cs) == 1 && $cs[0].Type == "Ready" && $cs[0].Status == "True" && by != nil) ==>
 //@        exists i :: 0 <= i && i < len(u.GetOwnerReferences()) && u.GetOwnerReferences()[i].UID == $using.GetUID()
